@@ -1656,6 +1656,16 @@ class Store:
 
             update = dict(update)  # avoid mutating the caller's dict
 
+            # the same structural key sent through several ports of one
+            # process wired to this store: all their entries
+            for key in ('_add', '_move', '_generate', '_delete'):
+                entries = update.get(key)
+                if isinstance(entries, dict) and MULTI_UPDATE_KEY in entries:
+                    update[key] = [
+                        entry
+                        for part in entries[MULTI_UPDATE_KEY]
+                        for entry in part]
+
             add_entries = update.pop('_add', None)
             if add_entries is not None:
                 # add a list of sub-states
